@@ -284,6 +284,9 @@ def classify(res):
         return "crash", {}
     de = res.get("de", ["?", ""])[0]
     ve = {k: v[0] for k, v in (res.get("ve") or {}).items()}
+    if "ds" in res:
+        # C05: the same bytes decoded through the streaming reader is one more operation that must return
+        ve["~stream_decode"] = res["ds"][0]
     return de, ve
 
 
